@@ -12,12 +12,12 @@ package webrtc
 // mid / kind of a remote media section are functions of that section.
 //@ func getMidValue
 //@ trusted
-//@ props C07 C09 C06
+//@ props C07 C09 C06 C30
 //@ ensures result == ufstr("midOf", media)
 //@ modifies nothing
 //@ func getPeerDirection
 //@ trusted
-//@ props C07
+//@ props C07 C30
 //@ modifies nothing
 //@ func getSctpInit
 //@ trusted
@@ -33,7 +33,7 @@ package webrtc
 //@ modifies nothing
 //@ func isExtMapAllowMixedSet
 //@ trusted
-//@ props C07
+//@ props C07 C30
 //@ modifies nothing
 //@ func descriptionIsPlanB
 //@ trusted
